@@ -48,6 +48,10 @@ partial def step (toks : List String) : String :=
     let T := parseNat T; let s := parseNat s; let f := parseNat f; let nrep := parseNat nrep
     let tabs := (tables.splitOn "!").map parseTable
     if chunkPanics nrep f then "panic" else
+    -- the parallel driver performs a tempering step after every s-th step as soon as there is a replica: the
+    -- observed swap script must have exactly that many steps
+    if decide (1 ≤ nrep) && decide (1 ≤ s) && (parseSwapScript script).length != T / s then
+      s!"SWAPSTEPS {(parseSwapScript script).length} DOCUMENTED {T / s}" else
     let R := mockSys [] [] []
     let c0 : List Rep × SwapScript := ((List.range nrep).map fun i => { gid := i, age := 0 }, parseSwapScript script)
     -- the tempering helper always uses the parallel driver
